@@ -81,6 +81,8 @@ def alphabet(ct, ut):
         "close-out-early": {"conn": ["ok", 0], "out": [[0, "EOF"]], "err": [[0, 5], [2, 5], [2, "EOF"]]},
         "close-err-early": {"conn": ["ok", 0], "out": [[0, 5], [2, 5], [2, "EOF"]], "err": [[0, "EOF"]]},
         "read-error": {"conn": ["ok", 0], "out": [[0, 5], [1, "ERR"]], "err": [[1, "EOF"]]},
+        # closes stderr at once, then hangs on stdout: with -s its stderr descriptor is gone long before the signal
+        "close-err-hang": {"conn": ["ok", 0], "out": [[0, 5], [-1, "EOF"]], "err": [[0, "EOF"]]},
         # keeps talking, every second, for ever (the command ends only when it is told to): past a command timeout
         # the worker is mostly NOT in xpoll when the deadline passes
         "chatty": {"conn": ["ok", 0], "out": [[k, 3] for k in range(0, 9)] + [[-1, "EOF"]], "err": [[-1, "EOF"]], "life": -1},
@@ -260,9 +262,12 @@ def offenders(res):
         tw = teardown_waiters(res)
         Hs = observe(res)
         # (a) reported as timed out, sent SIGTERM, ignores it; (b) ended normally, never sent anything, runs on
+        # (b) only if the target's polled streams really end by themselves (script): a worker that left its read loop
+        # early for any other reason and then waits for the command is NOT this finding
         imm = [(i, t) for i, never, t in tw if never and
                ((Hs[i]["timeout_at"] is not None and t and case["behaviours"][i].get("ignoreterm")) or
-                (Hs[i]["timeout_at"] is None and not t))]
+                (Hs[i]["timeout_at"] is None and not t and stream_end(case["behaviours"][i], streams) is not None and
+                 all(Hs[i]["closed"][k] for k in range(2 if sopt else 1))))]
         if tw and len(imm) == len(tw):
             out.append(("no-return:teardown-waits-for-command",
                         "command timeout %d, but dsh() never returns: %s; the command timeout does not apply to the "
@@ -279,6 +284,12 @@ def offenders(res):
     else:
         out.append(("harness-bug", "status " + status))
     H = observe(res)
+    for _, now, th, ev in events(res):
+        if ev[0] == "fwd" and "stale-efd" in ev:
+            out.append(("signal-on-stale-descriptor", "at %d the signal for %s was sent over a descriptor number that is "
+                        "not (any more) its open stderr connection: it reaches whoever owns that number now" %
+                        (now, case["hosts"][int(ev[1])]["name"])))
+            break
     total_bound = slip = 0
     for i, (host, beh, h) in enumerate(zip(case["hosts"], case["behaviours"], H)):
         name = host["name"]
@@ -388,6 +399,15 @@ def offenders(res):
             if h["done_at"] is not None and h["done_at"] != h["cend"] + e:
                 out.append(("finish-instant", "%s: streams end at +%d but the worker finished at +%d" %
                             (name, e, h["done_at"] - h["cend"])))
+    # a worker that, having given its target up, waits a grace period and then sends SIGKILL (repair of
+    # F07-TEARDOWN-WAIT): the grace actually taken, at most one watchdog period per target, is not the hosts' time
+    term, grace = {}, 0
+    for _, now, th, ev in events(res):
+        if ev[0] == "fwd" and ev[2] == "15":
+            term.setdefault(ev[1], now)
+        elif ev[0] == "fwd" and ev[2] == "9" and ev[1] in term:
+            grace += min(now - term.pop(ev[1]), WDOG_POLL)
+    slip += grace
     if status == "ok" and int(m["clock"]) - res["clock0"] > total_bound + slip:
         out.append(("run-not-bounded", "the run took %d virtual seconds, the hosts' own durations and timeouts add up "
                     "to %d" % (int(m["clock"]) - res["clock0"], total_bound)))
@@ -437,17 +457,42 @@ def detect_stopwdog(exe, scratch):
     return "G" not in [x for x in res["M"].get("alive", "").split(",") if x]
 
 
+def detect_killafter(exe, scratch):
+    """Does a worker that gave its target up at the command timeout make sure the command goes away (wait a grace
+    period, then SIGKILL -- the proposed repair of F07-TEARDOWN-WAIT case (a)), or does it go straight into
+    rcmd_destroy() and wait for as long as the command lives (the tree as it is)?  Decided by behaviour: one target
+    whose command never exits and ignores SIGTERM, command timeout 1: is it sent SIGKILL, and does dsh() return?"""
+    imm = {"conn": ["ok", 0], "out": [[0, 4], [-1, "EOF"]], "err": [[-1, "EOF"]], "life": -1, "ignoreterm": 1}
+    case = mk_case([imm], 1, 2, 1, False, 1, strategy="first")
+    res = run_cases(exe, [case], scratch)[0]
+    if res["crash"] is not None or res["M"] is None:
+        return False
+    killed = any(ev[0] == "fwd" and ev[2] == "9" for _, _, _, ev in events(res))
+    return killed and res["M"].get("status") == "ok"
+
+
+def gave_up(res):
+    """did some worker give its target up at the command timeout in this run (it forwarded SIGTERM to it)?"""
+    n = len(res["case"]["hosts"])
+    return any(th.startswith("W") and ev[0] == "fwd" and ev[2] == "15" and th[1:] == ev[1] and int(ev[1]) < n
+               for _, _, th, ev in events(res))
+
+
 def project(res, variant, selfcheck=False, stopwdog=False):
     case = res["case"]
     o = case["opts"]
     L = ["init %s %d %d %d %d %d %d" % (variant, case["fanout"], o["ct"], o["ut"], o["sopt"], 1 if selfcheck else 0,
                                         1 if stopwdog else 0)]
+    if o.get("k"):
+        L.append("kopt 1")
     for b in case["behaviours"]:
         life = b.get("life", 0)
         L.append("host %s %d %s %s %s %s" % (b["conn"][0], b["conn"][1] if len(b["conn"]) > 1 else 0,
                                               items_text(b, "out"), items_text(b, "err"),
                                               "-" if life < 0 else life,
                                               "-" if b.get("ignoreterm") else b.get("termgrace", 0)))
+        if o.get("k") and b.get("rc", 0) > 0 and b["conn"][0] == "ok":
+            L.append("nz")
     L.append("go")
     n = len(case["hosts"])
     got = [[0, 0] for _ in range(n)]
@@ -526,6 +571,8 @@ def project(res, variant, selfcheck=False, stopwdog=False):
             L.append(obs(i))
         elif th.startswith("W") and e == "connectBegin":
             hit[int(th[1:])] = False
+        if th.startswith("W") and any(t[0] == th and t[1] == "exit" for t in by_step.get(k, [])):
+            L.append("ev %s abort" % th)          # -k: the worker forwarded SIGTERM and called exit()
     status = (res["M"] or {}).get("status", "crash")
     if status == "deadlock" and res.get("last_S"):
         s = res["last_S"]
